@@ -99,6 +99,8 @@ class GICable(protocol_base.IrProtocolBase):
 
         for i in range(start, -1, -1):
             timing = lead_out[i]
+            if not data:
+                return False
             burst = data.pop(len(data) - 1)
             if not self._match(burst, timing):
                 if i != 0 or burst < 0 < timing or burst > 0 > timing:
@@ -128,6 +130,8 @@ class GICable(protocol_base.IrProtocolBase):
 
     def _c_lead_in(self, data: list, lead_in: list, bursts: list) -> bool:
         for i, timing in enumerate(lead_in):
+            if not data:
+                return False
             burst = data.pop(0)
             if not self._match(burst, timing):
                 if (
